@@ -370,12 +370,15 @@ class NVSubroutineTranspiler(SubroutineTranspiler):
         set_electron = core.SetInstruction(
             lineno=instr.lineno, reg=electron, imm=Immediate(0)
         )
-        instr.reg0 = electron
+        # NOTE the instruction of the caller's subroutine is left as it is
+        via_electron = vanilla.CphaseInstruction(
+            lineno=instr.lineno, reg0=electron, reg1=instr.reg1
+        )
 
         result: List[NetQASMInstruction] = [set_electron]
         result += (
             self.swap(instr.lineno, electron, carbon)
-            + self._map_cphase_electron_carbon(instr)
+            + self._map_cphase_electron_carbon(via_electron)
             + self.swap(instr.lineno, electron, carbon)
         )
         return result
@@ -461,12 +464,15 @@ class NVSubroutineTranspiler(SubroutineTranspiler):
         set_electron = core.SetInstruction(
             lineno=instr.lineno, reg=electron, imm=Immediate(0)
         )
-        instr.reg0 = electron
+        # NOTE the instruction of the caller's subroutine is left as it is
+        via_electron = vanilla.CnotInstruction(
+            lineno=instr.lineno, reg0=electron, reg1=instr.reg1
+        )
 
         result: List[NetQASMInstruction] = [set_electron]
         result += (
             self.swap(instr.lineno, electron, carbon)
-            + self._map_cnot_electron_carbon(instr)
+            + self._map_cnot_electron_carbon(via_electron)
             + self.swap(instr.lineno, electron, carbon)
         )
         return result
